@@ -1,6 +1,7 @@
 import IoraModel.Lemmas.UdpEngine
 import IoraModel.Lemmas.UdpTokens
 import IoraModel.Lemmas.UdpCount
+import IoraModel.Lemmas.UdpArm
 /-!
 # C06 — UDP keeps datagram boundaries and the peer-to-session mapping
 
@@ -15,21 +16,59 @@ open Iora Iora.Udp
 /-- the configuration the engine runs with by default (all fields from `Gen/Udp.lean`) -/
 def defaultCfg : Cfg := {}
 
-/-! ## Obligations on the translated facts -/
+/-! ## Obligations on the translated facts
 
-/-- **G1.** The receive buffer (`buf.resize(_config.ioReadChunk)`, offered whole to `recvfrom`/`recv`) holds the largest UDP
+Every `Gen.Udp.*` value below is DERIVED by `tools/tr_udp.py` from the text of the working tree on each run (a boolean is the
+result of matching the named shape, a list is what was found) — none is a literal of the translator.  A source shape the
+translator cannot read at all is a translator error instead (also a broken tie). -/
+
+/-- **G1.** The one receive buffer of `readFromListener` and of `onClient` is `buf.resize(_config.ioReadChunk)`, offered whole to
+`recvfrom`/`recv`; the data callback gets exactly `BufferView{buf.data(), n}`; and the default `ioReadChunk` holds the largest UDP
 datagram: no datagram of the property's size range (1…65507) can be truncated by it. -/
 theorem G1_recv_buffer_holds_max_datagram :
-    Gen.Udp.recvBufferIsIoReadChunk = true ∧ maxDatagram ≤ Gen.Udp.ioReadChunk := by decide
+    Gen.Udp.recvBufferListenerIsIoReadChunk = true ∧ Gen.Udp.recvBufferClientIsIoReadChunk = true ∧
+    Gen.Udp.dataViewListenerIsReturnValue = true ∧ Gen.Udp.dataViewClientIsReturnValue = true ∧
+    maxDatagram ≤ Gen.Udp.ioReadChunk := by decide
 
 /-- **G2.** `closeNow` erases `_peerIndex[pkey]` only if the entry maps to the session being closed (the F17 repair). -/
 theorem G2_closeNow_erase_guarded : Gen.Udp.closeNowEraseGuarded = true := by decide
 
-/-- **G3.** `_peerIndex` is mutated only in the four functions the model mirrors, entries are only ever inserted for an absent key,
-and no session cap is configured by default. -/
+/-- **G3.** `_peerIndex` is mutated only in the four functions the model mirrors; entries are only ever inserted under the not-found
+result of `_peerIndex.find(key(addr))`; an arriving datagram of an indexed peer takes exactly the indexed session
+(`sid = it->second`); no session cap is configured by default. -/
 theorem G3_index_sites :
     Gen.Udp.peerIndexEraseSites.map (·.1) = ["closeNow", "shutdownDrain"] ∧
-    Gen.Udp.peerIndexInsertSites = [("readFromListener", "absent"), ("viaDo", "absent")] ∧ Gen.Udp.maxSessions = 0 := by decide
+    Gen.Udp.peerIndexInsertSites = [("readFromListener", "absent"), ("viaDo", "absent")] ∧
+    Gen.Udp.lookupUsesIndexedSession = true ∧ Gen.Udp.maxSessions = 0 := by decide
+
+/-- **G4.** epoll interest: `addEpoll` in `addListenerDo`/`connectDo` arms `EPOLLIN`, and the mask rebuilt by
+`updateListener`/`updateClient` keeps it (`EPOLLOUT` only under `wantWrite && !wq.empty()` — any other condition is a translator error). -/
+theorem G4_interest_facts : ArmFacts defaultCfg := by
+  unfold ArmFacts defaultCfg; decide
+
+/-- **G5.** What reaches the kernel: every `send`/`sendto` of the mirrored functions passes exactly `MSG_NOSIGNAL` (no `MSG_MORE`
+corking, no `MSG_CONFIRM`…), every `recv`/`recvfrom` passes flags `0` (no `MSG_PEEK`/`MSG_TRUNC`), every socket is a plain
+non-blocking `SOCK_DGRAM`, and the only socket options set are the receive/send buffer sizes and `IPV6_V6ONLY` (no `UDP_GRO`,
+`UDP_SEGMENT`, `UDP_CORK` — options that would let the kernel coalesce or split datagrams; loopback tests cannot see those). -/
+theorem G5_kernel_interface :
+    Gen.Udp.ioCallFlags = [("readFromListener", "recvfrom", "0"), ("onClient", "recv", "0"), ("sendDo", "sendto", "MSG_NOSIGNAL"),
+      ("sendDo", "send", "MSG_NOSIGNAL"), ("flushListener", "sendto", "MSG_NOSIGNAL"), ("writeClient", "send", "MSG_NOSIGNAL")] ∧
+    Gen.Udp.sockopts.all (fun x => [("SOL_SOCKET", "SO_RCVBUF"), ("SOL_SOCKET", "SO_SNDBUF"), ("IPPROTO_IPV6", "IPV6_V6ONLY")].contains x.2) = true ∧
+    Gen.Udp.socketTypes.all (fun x => x.2 == "SOCK_DGRAM | SOCK_NONBLOCK | SOCK_CLOEXEC") = true := by decide
+
+/-- **G6.** Address canonicalisation (the model identifies the index key with the socket address): `key()` is the numeric host,
+`':'`, the numeric service of the WHOLE address for both families; `addressFromSockaddr` reports numeric host and port; a ServerPeer
+session stores the whole source/target `sockaddr` it later sends to. -/
+theorem G6_address_key :
+    Gen.Udp.keyIsNumericHostColonPort = true ∧ Gen.Udp.addressFromSockaddrIsHostAndPort = true ∧
+    Gen.Udp.sessionKeepsWholePeerAddress = true := by decide
+
+/-- **G7.** Session and listener ids come from `std::atomic` counters starting at 1, and `_nextSessionId++` is the initialiser of the
+id in exactly `connect()`, `connectViaListener()` (caller threads) and `readFromListener` (I/O thread) — the model's `nextSid`. -/
+theorem G7_id_counters :
+    Gen.Udp.nextSessionIdAtomic = true ∧ Gen.Udp.nextSessionIdInit = 1 ∧ Gen.Udp.nextListenerIdAtomic = true ∧
+    Gen.Udp.nextListenerIdInit = 1 ∧
+    Gen.Udp.nextSessionIdAllocators = ["connect", "connectViaListener", "readFromListener"] ∧ Gen.Udp.nextSessionIdMentions = 4 := by decide
 
 /-! ## T1 — every accepted send is at most one datagram, byte-identical, addressed to the session's peer
 
@@ -55,22 +94,142 @@ theorem T1_faithful (cfg : Cfg) (h : List In) (src : Src) (dest : Nat) (bytes : 
 
 /-- non-vacuity / what the code does when the session closes meanwhile (listener queue): accept S1 from peer 7, a send on S1 hits
 EAGAIN, S1 is closed, the listener becomes writable — the datagram still goes out, to peer 7, with the bytes of input number 2. -/
-example : (run defaultCfg [.listen, .recvFrom 1 [(7, [1])], .cmdSend 1 [9, 9] .eagain, .close 1, .writableL 1 [.ok]]).2 =
+example : (run defaultCfg [.listen false, .recvFrom 1 [(7, [1])], .cmdSend 1 [9, 9] .eagain, .close 1, .writableL 1 [.ok]]).2 =
     [.accept 1 7, .data 1 [1], .closed 1 .unknown, .sent (.lst 1) 7 [9, 9] 2] := by decide
 /-- … and the queue of a closed client session is dropped -/
-example : (run defaultCfg [.connect 5, .cmdSend 1 [3] .eagain, .close 1, .writableC 1 []]).2 =
+example : (run defaultCfg [.connect 5 false, .cmdSend 1 [3] .eagain, .close 1, .writableC 1 []]).2 =
     [.connected 1 5, .closed 1 .unknown] := by decide
 /-- … while an open one flushes it exactly once -/
-example : (run defaultCfg [.connect 5, .cmdSend 1 [3] .eagain, .writableC 1 [.eagain], .writableC 1 [.ok], .writableC 1 [.ok]]).2 =
+example : (run defaultCfg [.connect 5 false, .cmdSend 1 [3] .eagain, .writableC 1 [.eagain], .writableC 1 [.ok], .writableC 1 [.ok]]).2 =
     [.connected 1 5, .sent (.cli 1) 5 [3] 1] := by decide
 
 /-! ## T2 — every received datagram is exactly one data event, whole, on a session of its sender -/
 
 /-- **T2 (invariant).** In every reachable state each peer-index entry points to an OPEN ServerPeer session whose peer is that
 very address, and session ids are never reused. (This is what "not delivered on a session belonging to a different peer" rests on.) -/
-theorem T2_index_sound (cfg : Cfg) (h : List In) (a sid : Nat) (hix : (run cfg h).1.peerIndex a = some sid) :
-    ∃ s, (run cfg h).1.sessions sid = some s ∧ s.peer = a ∧ s.role = .serverPeer :=
-  (run_inv cfg h).idx a sid hix
+theorem T2_index_sound (cfg : Cfg) (h : List In) :
+    (∀ a sid, (run cfg h).1.peerIndex a = some sid →
+        ∃ s, (run cfg h).1.sessions sid = some s ∧ s.peer = a ∧ s.role = .serverPeer) ∧
+    (∀ sid s, (run cfg h).1.sessions sid = some s → sid < (run cfg h).1.nextSid) :=
+  ⟨(run_inv cfg h).idx, (run_inv cfg h).fresh⟩
+
+/-- **T2 (ids are never reused).** A new session (accept, connect, connect-via-listener) always gets the id `nextSid`, which no open
+session has (second conjunct above) and which only grows: -/
+theorem T2_nextSid_monotone (cfg : Cfg) (tok : Nat) (st : State) (i : In) : st.nextSid ≤ (step cfg tok st i).1.nextSid := by
+  have hclose : ∀ (st' : State) (x : Nat) (w : Why), (closeNow cfg st' x w).1.nextSid = st'.nextSid := by
+    intro st' x w; unfold closeNow; split <;> rfl
+  have hcloseAll : ∀ (l : List Nat) (st' : State) (w : Why), (closeAll cfg w st' l).1.nextSid = st'.nextSid := by
+    intro l; induction l with
+    | nil => intro _ _; rfl
+    | cons x xs ih => intro st' w; simp only [closeAll, ih, hclose]
+  have hrecvOne : ∀ (lid : Nat) (st' : State) (d : Nat × Bytes), st'.nextSid ≤ (recvOne cfg lid st' d).1.nextSid := by
+    intro lid st' d; unfold recvOne; simp only
+    split
+    · exact Nat.le_refl _
+    · split
+      · split
+        · exact Nat.le_refl _
+        · exact Nat.le_succ _
+      · split <;> exact Nat.le_refl _
+  have hrecv : ∀ (lid : Nat) (ds : List (Nat × Bytes)) (st' : State), st'.nextSid ≤ (recvMany cfg lid st' ds).1.nextSid := by
+    intro lid ds; induction ds with
+    | nil => intro _; exact Nat.le_refl _
+    | cons d ds ih => intro st'; simp only [recvMany]; exact Nat.le_trans (hrecvOne lid st' d) (ih _)
+  have hcli : ∀ (x : Nat) (ds : List Bytes) (st' : State), (clientRecvMany cfg x st' ds).1.nextSid = st'.nextSid := by
+    intro x ds; induction ds with
+    | nil => intro _; rfl
+    | cons d ds ih =>
+      intro st'; simp only [clientRecvMany]
+      split
+      · rfl
+      · rw [ih]; split <;> rfl
+  cases i with
+  | listen v6 => exact Nat.le_refl _
+  | recvFrom lid dgs =>
+    simp only [step]; split
+    · exact Nat.le_refl _
+    · split
+      · exact hrecv lid dgs st
+      · exact Nat.le_refl _
+  | clientRecv x dgs =>
+    simp only [step]; split
+    · exact Nat.le_refl _
+    · split
+      · exact Nat.le_refl _
+      · split
+        · rw [hcli]; exact Nat.le_refl _
+        · exact Nat.le_refl _
+  | connect a v6 => exact Nat.le_succ _
+  | via lid a v6 =>
+    simp only [step, viaDo]
+    split
+    · exact Nat.le_succ _
+    · split
+      · exact Nat.le_succ _
+      · split <;> exact Nat.le_succ _
+  | cmdSend x p ans =>
+    simp only [step]; split
+    · exact Nat.le_refl _
+    · unfold sendDo
+      cases st.sessions x with
+      | none => exact Nat.le_refl _
+      | some s =>
+        dsimp only
+        cases s.role with
+        | client =>
+          dsimp only
+          cases kernelAns _ p ans with
+          | ok => exact Nat.le_refl _
+          | eagain =>
+            dsimp only
+            split
+            · split
+              · rw [hclose]; exact Nat.le_refl _
+              · exact Nat.le_refl _
+            · exact Nat.le_refl _
+          | err => rw [hclose]; exact Nat.le_refl _
+        | serverPeer =>
+          dsimp only
+          cases st.listeners s.owner with
+          | none => rw [hclose]; exact Nat.le_refl _
+          | some l =>
+            dsimp only
+            cases kernelAns _ p ans with
+            | ok => exact Nat.le_refl _
+            | eagain =>
+              dsimp only
+              split
+              · split
+                · rw [hclose]; exact Nat.le_refl _
+                · exact Nat.le_refl _
+              · exact Nat.le_refl _
+            | err => rw [hclose]; exact Nat.le_refl _
+  | writableL lid as =>
+    simp only [step, flushListener]
+    split
+    · exact Nat.le_refl _
+    · split <;> exact Nat.le_refl _
+  | writableC x as =>
+    simp only [step, writeClient]
+    cases st.sessions x with
+    | none => exact Nat.le_refl _
+    | some s =>
+      dsimp only
+      cases s.role with
+      | serverPeer => exact Nat.le_refl _
+      | client =>
+        dsimp only
+        split
+        · split
+          · rw [hclose]; exact Nat.le_refl _
+          · exact Nat.le_refl _
+        · exact Nat.le_refl _
+  | close x => simp only [step]; rw [hclose]; exact Nat.le_refl _
+  | advance ms => exact Nat.le_refl _
+  | gc => simp only [step, runGc]; rw [hcloseAll]; exact Nat.le_refl _
+  | restart =>
+    simp only [step, shutdownDrain]
+    rw [(drainAll_sessions cfg _ st).2]; exact Nat.le_refl _
 
 /-- **T2 (one datagram).** After ANY history, a datagram of 1…65507 bytes from `a` that the session cap does not refuse (no cap by
 default) produces exactly one data event with exactly its bytes — never merged, split, truncated or duplicated — on a ServerPeer
@@ -122,6 +281,34 @@ theorem T2_no_null_session (cfg : Cfg) (h : List In) (lid : Nat) (d : Nat × Byt
     Out.nullDeref ∉ (recvOne cfg lid (run cfg h).1 d).2 :=
   recvOne_no_nullDeref cfg lid _ d (run_inv cfg h)
 
+/-! ## T2' — a datagram that arrived is also SEEN: the epoll interest invariant -/
+
+/-- **T2 (interest).** After ANY history every listener socket and every client socket has `EPOLLIN` in the interest mask last
+handed to epoll, and `EPOLLOUT` exactly when `wantWrite && !wq.empty()` — whatever sequence of EAGAINs, flushes, overflows and
+closes came before (in particular `updateListener`/`updateClient`, which rebuild the mask from scratch, never drop `EPOLLIN`). -/
+theorem T2_interest (cfg : Cfg) (hf : ArmFacts cfg) (h : List In) :
+    (∀ lid l, (run cfg h).1.listeners lid = some l → l.armIn = true ∧ l.armOut = (l.wantWrite && !l.wq.isEmpty)) ∧
+    (∀ sid s, (run cfg h).1.sessions sid = some s → s.role = .client →
+        s.armIn = true ∧ s.armOut = (s.wantWrite && !s.wq.isEmpty)) :=
+  ⟨(run_arm cfg hf h).lst, (run_arm cfg hf h).cli⟩
+
+/-- … hence a readable listener is always read: after any history the `EPOLLIN` step on an existing listener IS the `recvfrom`
+loop (to which `T2_burst` applies); it is never skipped for lack of interest. Likewise for a client socket. -/
+theorem T2_listener_always_read (cfg : Cfg) (hf : ArmFacts cfg) (h : List In) (lid : Nat) (l : Lst)
+    (hl : (run cfg h).1.listeners lid = some l) (ds : List (Nat × Bytes)) :
+    step cfg h.length (run cfg h).1 (.recvFrom lid ds) = recvMany cfg lid (run cfg h).1 ds := by
+  simp [step, hl, ((run_arm cfg hf h).lst lid l hl).1]
+
+theorem T2_client_always_read (cfg : Cfg) (hf : ArmFacts cfg) (h : List In) (sid : Nat) (s : Sess)
+    (hs : (run cfg h).1.sessions sid = some s) (hr : s.role = .client) (ds : List Bytes) :
+    step cfg h.length (run cfg h).1 (.clientRecv sid ds) = clientRecvMany cfg sid (run cfg h).1 ds := by
+  simp [step, hs, hr, ((run_arm cfg hf h).cli sid s hs hr).1]
+
+/-- non-vacuity, and the scenario that motivated it: a send on a listener session hits EAGAIN (the mask is rebuilt with EPOLLOUT),
+the queue is flushed (rebuilt again) — the listener still has EPOLLIN armed and the next datagram is delivered. -/
+example : (run defaultCfg [.listen false, .recvFrom 1 [(7, [1])], .cmdSend 1 [9] .eagain, .writableL 1 [.ok], .recvFrom 1 [(7, [2])]]).2 =
+    [.accept 1 7, .data 1 [1], .sent (.lst 1) 7 [9] 2, .data 1 [2]] := by decide
+
 /-! ## T3 — stability of the mapping -/
 
 /-- **T3 (next datagram).** If the index maps `a` to `sid` (i.e. `sid` receives `a`'s datagrams — by T2 it is open), the next
@@ -151,6 +338,27 @@ theorem T3_history (cfg : Cfg) (hg : cfg.eraseGuarded = true) (h h' : List In) (
       ∀ s', Out.accept s' a ∉ (runFrom cfg h.length (run cfg h).1 h').2 :=
   runFrom_stable cfg hg a sid h' _ _ (run_inv cfg h) hix hopen
 
+/-- **T3 (trace form).** After ANY history `h` with `a ↦ sid`, and ANY continuation `h'` that does not close `sid`: in a `recvfrom`
+loop that then returns the datagrams `pre ++ d :: post` (any senders, any sizes), the datagram `d` from `a` — at whatever position —
+produces exactly the one event `data sid d.bytes`, between the events of `pre` and those of `post`: on `sid`, whole, no accept. -/
+theorem T3_trace (cfg : Cfg) (hg : cfg.eraseGuarded = true) (hchunk : maxDatagram ≤ cfg.ioReadChunk) (h h' : List In) (a sid : Nat)
+    (hix : (run cfg h).1.peerIndex a = some sid) (hopen : ∀ w, Out.closed sid w ∉ (runFrom cfg h.length (run cfg h).1 h').2)
+    (lid : Nat) (pre post : List (Nat × Bytes)) (d : Nat × Bytes) (hd : d.1 = a) (hne : d.2 ≠ []) (hlen : d.2.length ≤ maxDatagram) :
+    (recvMany cfg lid (runFrom cfg h.length (run cfg h).1 h').1 (pre ++ d :: post)).2 =
+      (recvMany cfg lid (runFrom cfg h.length (run cfg h).1 h').1 pre).2 ++ [.data sid d.2] ++
+      (recvMany cfg lid (recvOne cfg lid (recvMany cfg lid (runFrom cfg h.length (run cfg h).1 h').1 pre).1 d).1 post).2 :=
+  (recvMany_trace cfg lid _ (runFrom_inv cfg h' _ _ (run_inv cfg h)) a sid
+    (runFrom_stable cfg hg a sid h' _ _ (run_inv cfg h) hix hopen).1 pre post d hd hne (Nat.le_trans hlen hchunk)).2
+
+/-- **T3 (every session stays).** After ANY history, whatever the I/O thread does next, an open session — a client-socket session
+just like a ServerPeer one — is still in the table afterwards with the same peer, role and owner listener, unless that very step
+closes it and reports `closed sid`. (For a client session this is the whole of "keeps receiving": its socket is its own, the kernel
+delivers only its peer's datagrams to it, and `T2_client`/`T2_client_always_read` say they all come out on `sid`.) -/
+theorem T3_session_stays (cfg : Cfg) (h : List In) (i : In) (sid : Nat) (s : Sess) (hs : (run cfg h).1.sessions sid = some s) :
+    (∃ s', (step cfg h.length (run cfg h).1 i).1.sessions sid = some s' ∧ s'.peer = s.peer ∧ s'.role = s.role ∧ s'.owner = s.owner) ∨
+    ∃ w, Out.closed sid w ∈ (step cfg h.length (run cfg h).1 i).2 :=
+  step_stays cfg _ _ i (run_inv cfg h) sid s hs
+
 /-- **T3 (shutdown site).** `stop()`+`start()` after ANY history leaves the peer index empty — for BOTH forms of the erase in
 `shutdownDrain` (guarded as in the repair, or unconditional as before): that second erase site cannot break the mapping, every
 session is closed there anyway (each with its `closed` event, by `T3_step`). -/
@@ -163,7 +371,7 @@ example : defaultCfg.eraseGuarded = true := G2_closeNow_erase_guarded
 
 /-- non-vacuity of T3 and the F17 scenario, on the repaired code: accept S1 from peer 7, connect-via-listener to 7 (S2), close S2 —
 the index still maps 7 to S1, and the next datagram is data on S1 without accept. -/
-def f17History : List In := [.listen, .recvFrom 1 [(7, [1])], .via 1 7, .close 2]
+def f17History : List In := [.listen false, .recvFrom 1 [(7, [1])], .via 1 7 false, .close 2]
 
 example : (run { eraseGuarded := true } f17History).1.peerIndex 7 = some 1 ∧
     (step { eraseGuarded := true } 4 (run { eraseGuarded := true } f17History).1 (.recvFrom 1 [(7, [2])])).2 = [.data 1 [2]] := by
@@ -177,7 +385,7 @@ theorem T3_refuted_without_guard :
         (step { eraseGuarded := false } h.length (run { eraseGuarded := false } h).1 i).1.peerIndex a = some sid ∨
         ∃ w, Out.closed sid w ∈ (step { eraseGuarded := false } h.length (run { eraseGuarded := false } h).1 i).2) := by
   intro hall
-  rcases hall [.listen, .recvFrom 1 [(7, [1])], .via 1 7] (.close 2) 7 1 (by decide) with h1 | ⟨w, h1⟩
+  rcases hall [.listen false, .recvFrom 1 [(7, [1])], .via 1 7 false] (.close 2) 7 1 (by decide) with h1 | ⟨w, h1⟩
   · revert h1; decide
   · cases w <;> (revert h1; decide)
 
